@@ -518,8 +518,6 @@ def ascii_ws_domain(text):
             return False
         if ch in "ſKıİ":
             return False
-        if 0xD800 <= ord(ch) <= 0xDFFF:
-            return False
         if ch in "\x1c\x1d\x1e\x1f\x85":
             return False
     # ASCII control chars that str.isspace() counts but byte-level \s may not
